@@ -561,6 +561,64 @@ func (c *Ctx) pathsCarry(target *ssa.BasicBlock, alts []Alt, seen map[*ssa.Basic
 	return false
 }
 
+// PathsCarryDAG is PathsCarry with results shared between the branches of the
+// search (a block reached again along another branch gives the answer found
+// the first time; a block reached again along the branch being explored — a
+// loop's back edge — adds no new way in from the entry and counts as carried).
+func (c *Ctx) PathsCarryDAG(target *ssa.BasicBlock, alts []Alt) bool {
+	state := map[*ssa.BasicBlock]int{} // 1 in progress, 2 carried, 3 not
+	match := func(fs []Fact) bool {
+		for _, f := range fs {
+			for _, a := range alts {
+				if f.Val == a.Val {
+					if _, ok := Match(a.Pat, f.Cond); ok {
+						return true
+					}
+				}
+			}
+		}
+		return false
+	}
+	var rec func(t *ssa.BasicBlock) bool
+	rec = func(t *ssa.BasicBlock) bool {
+		switch state[t] {
+		case 1, 2:
+			return true
+		case 3:
+			return false
+		}
+		state[t] = 1
+		res := false
+		for d := t; d != nil; d = d.Idom() {
+			if match(c.FactsAt(d)) {
+				res = true
+				break
+			}
+			if len(d.Preds) > 1 {
+				all := true
+				for _, p := range d.Preds {
+					if match(edgeFact(c, p, d)) {
+						continue
+					}
+					if !rec(p) {
+						all = false
+						break
+					}
+				}
+				res = all
+				break
+			}
+		}
+		if res {
+			state[t] = 2
+		} else {
+			state[t] = 3
+		}
+		return res
+	}
+	return rec(target)
+}
+
 // allPathsPass: every path from fn's entry to a return executes an
 // instruction satisfying pred. On failure a description of one offending
 // path (block indices) is returned.
